@@ -27,21 +27,18 @@ type Spec struct {
 // NA is a property not claimed, with the reason.
 type NA struct{ ID, Reason string }
 
-const notYet = "claimed in DESIGN.md but its check is not built yet; listed here until it is"
-
 // NotApplicable lists every property without a check. Entries whose id has a
 // Spec in All are ignored (the manifest generator filters them).
 var NotApplicable = []NA{
 	{"C01", "pure codec over inputs (all headers, lengths, byte strings): no transport, fault, schedule or history in its statement; deterministic simulation has nothing to decide (DESIGN.md §5). Header parsing from a segmented transport is exercised incidentally by C04/C05/C16."},
 	{"C02", "XOR masking is a pure function of (payload, key, offset); 'any chunking' is an argument, not an environment (DESIGN.md §5). CipherReader under seeded segmentation is exercised incidentally by C04, client masking by C06/C08."},
 	{"C03", "pure predicates over (header, state) and (code, reason); the simulator uses an independent restatement of these rules as its oracle and does not test them (DESIGN.md §5)."},
-	
+
 	{"C09", "decision of the upgrader over all requests of a grammar x callback configurations: a pure function of the request bytes; the simulation only ever feeds it requests written by the library's own dialer (C11) or cuts of them (C16) (DESIGN.md §5)."},
 	{"C10", "decision of the dialer over all responses of a grammar and URL forms: a pure function of response bytes and configuration; only its 'bytes after the head stay readable' clause has a delivery dimension and that is checked inside C11/C16 (DESIGN.md §5)."},
-	
+
 	{"C14", "a grid of (server parameters x offers) through a pure negotiator; the only history in it (reset) is covered by C18 (DESIGN.md §5)."},
 	{"C15", "'for arbitrary bytes never panics/hangs' explored by coverage-guided mutation is fuzzing of pure decoders, not simulation; panics or frozen step counters met inside claimed properties' runs are still reported there (DESIGN.md §5)."},
-	{"C19", notYet},
 }
 
 var Real = []string{
@@ -129,10 +126,17 @@ var All = []*Spec{
 		LevelText: "seeded exploration with a differential oracle: the transcript of H2 (every return value, Size/Available/Buffered or Valid/Accepted getters, bytes sent) on the reused object equals the transcript of H2 on a freshly constructed object with the same buffer length, state and opcode, masks reseeded identically.",
 		LevelNote: "the buffer length of a wsutil.Writer is read by reflection (field raw) to build the fresh twin; ResetOp is compared with a fresh writer carrying the same extensions and flush mode, as documented.",
 		DesignRef: "§4 C18", Technique: "deterministic simulation: seeded two-life histories with injected I/O errors, differential against a fresh instance"},
+	{ID: "C19", Engine: "multi", Level: "exploration", Quick: 640, Thorough: 48000, QuickCap: 200, ThorCap: 1700, Race: true,
+		Rule:      "each run draws 2-8 sessions (thorough: up to 11), each a client task and a server task on their own simulated connection and a deterministic function of its sub-seed: handshake through DefaultDialer/Dialer vs ws.Upgrade / Upgrader{Protocol,Negotiate} / HTTPUpgrader(+UpgradeHTTP), optional permessage-deflate negotiation, 1-6 request/ack exchanges in both directions (WriteMessage variants up to 70000 bytes, GetWriter/PutWriter fragmented writes, ping+message answered inline by ReadData, precompiled frames, wsflate.CompressFrame/DecompressFrame, the compressed writer/reader stacks), then the closing handshake; the seeded scheduler picks the next task at every conn and pool operation (stickiness 0 / 1/2 / 9/10), the sim pool is shared (lifo/tape/fresh), reads are segmented; each session is then re-run alone; workers are built with -race and the scheduler's handoff is invisible to the detector; non-trivial = at least one task switch; distinct = schedule digests",
+		Stub:      []string{"task scheduler: /verif/multi (real goroutines released one at a time, raw read(2)/write(2) pipe handoff in //go:norace code)", "net.Conn: multi.Conn (in-memory rings, seeded read segmentation)", "github.com/gobwas/pool -> /verif/simpool (per-item happens-before only, poison on put, canaries, double-put detection)", "net/http server loop: http.ReadRequest + stub Hijacker", "math/rand: left unseeded in this engine (lock-free runtime source); masks and nonces never enter a transcript"},
+		Assume:    append([]string{"interleaving granularity is the yield-point set (every conn and pool operation); an unsynchronised shared access between two non-I/O statements is left to the race detector, which stays effective because the scheduler adds no happens-before edge", "the race detector keeps a bounded access history per location: false negatives only"}, assumeCommon...),
+		LevelText: "seeded exploration of interleavings of N independent sessions. Oracle: (1) each session's semantic transcript (handshake result, every payload checksum, acks, errors, close) equals the transcript of the same session run alone from the same sub-seed; (2) sim-pool invariants: no double put, poison canaries intact at reuse and at the end; (3) the race detector's log contains no report with a frame in github.com/gobwas/ws (a report wholly inside the harness is exit 2).",
+		LevelNote: "session scripts are confluent by construction (strict request/ack, no close of the transport), checked by the solo runs never deadlocking; masks and nonces are not reproducible in this engine and influence no decision.",
+		DesignRef: "§4 C19", Technique: "deterministic simulation: seeded race-detector-invisible task scheduler over real goroutines + solo/concurrent differential + go race detector"},
 	{ID: "C20", Engine: "dial", Level: "fault_enumeration", Quick: 1600, Thorough: 160000, QuickCap: 150, ThorCap: 1700,
-		Rule: "scenarios are sampled from the seed: context kind (Background / cancel-only / with deadline at instants around every peer event), Dialer.Timeout (none / shorter / longer), connect delay, ws/wss (stub TLS), WrapConn, peer (valid 101 after a delay in 1-4 segments with gaps and optional trailing frame / rejecting / silent / write-blocking), read buffer and per-read segment size; for each scenario the cancellation instant is enumerated: no cancel, cancel after return (order B), cancel at 7 fake-time instants, and cancel at entry and at successful exit of EVERY Read/Write on the conn with the watcher goroutine run to quiescence before the call proceeds (order A, incl. inside the final Read); evaluations = scenarios, fault_points_enumerated = Dial executions, each in its own synctest bubble; distinct = trace digests (return instants, conn call ledgers, errors)",
-		Stub: []string{"clock, timers, context deadlines: testing/synctest fake clock (Go 1.26.8)", "net.Conn: dial.Conn (deadline-honouring, in-bubble sync.Cond + timers, full call ledger)", "NetDial / TLSClient / WrapConn: stubs returning the simulated conn, NetDial honours ctx during its connect delay", "peer: in-bubble timers delivering response segments; Sec-WebSocket-Accept computed independently (crypto/sha1)", "github.com/gobwas/pool -> /verif/simpool"},
-		Assume: append([]string{"the runtime's choice between simultaneously ready select cases cannot be seeded; enumerated orders (A) and (B) never make both ready at once"}, assumeCommon...),
+		Rule:      "scenarios are sampled from the seed: context kind (Background / cancel-only / with deadline at instants around every peer event), Dialer.Timeout (none / shorter / longer), connect delay, ws/wss (stub TLS), WrapConn, peer (valid 101 after a delay in 1-4 segments with gaps and optional trailing frame / rejecting / silent / write-blocking), read buffer and per-read segment size; for each scenario the cancellation instant is enumerated: no cancel, cancel after return (order B), cancel at 7 fake-time instants, and cancel at entry and at successful exit of EVERY Read/Write on the conn with the watcher goroutine run to quiescence before the call proceeds (order A, incl. inside the final Read); evaluations = scenarios, fault_points_enumerated = Dial executions, each in its own synctest bubble; distinct = trace digests (return instants, conn call ledgers, errors)",
+		Stub:      []string{"clock, timers, context deadlines: testing/synctest fake clock (Go 1.26.8)", "net.Conn: dial.Conn (deadline-honouring, in-bubble sync.Cond + timers, full call ledger)", "NetDial / TLSClient / WrapConn: stubs returning the simulated conn, NetDial honours ctx during its connect delay", "peer: in-bubble timers delivering response segments; Sec-WebSocket-Accept computed independently (crypto/sha1)", "github.com/gobwas/pool -> /verif/simpool"},
+		Assume:    append([]string{"the runtime's choice between simultaneously ready select cases cannot be seeded; enumerated orders (A) and (B) never make both ready at once"}, assumeCommon...),
 		LevelText: "fault enumeration on a fake clock: per sampled scenario every cancellation point is executed. Oracle from the conn ledger and the fake clock: success => conn not closed, deadlines cleared, no call on the conn during a following hour even after a late cancel; failure with a conn => Close before return; context ended during handshake I/O and nothing else failed => errors.Is(err, ctx.Err()); Dial returns no later than min(context end, start+Timeout); no goroutine started by Dial survives its return (goroutine count at quiescence, and bubble exit would deadlock).",
 		LevelNote: "the error value when Dialer.Timeout (not the caller's context) expires is not checked; scenarios in which nothing can ever end the wait are not generated; deadline instants avoid exact ties with peer events by 1 ms.",
 		DesignRef: "§4 C20", Technique: "deterministic simulation: synctest fake clock + exhaustive cancellation-point enumeration per seeded scenario"},
